@@ -173,7 +173,9 @@ FLOWS = [
     "{% assign r = x | split: y %}{{ r }}|{{ r | join: y }}|{{ x | default: y }}|{{ nil | default: x }}|{% echo x %}|{% echo x | prepend: y %}",
     "{{ x if y else 'a' }}|{{ 'a' if nope else x }}|{{ x | upcase if y else y || append: x }}|{% cycle x, y %}|{% case x %}{% when y %}{{ x }}{% else %}{{ y }}{% endcase %}",
     "{% tablerow i in l cols: 1 %}{{ i }}{% endtablerow %}".replace("tablerow", "tablerow"),
-    "{% with q: x %}{{ q }}{% endwith %}{% increment n %}{{ x | size }}{{ x | json }}{{ l | json }}{{ h | json }}",
+    "{% with q: x %}{{ q }}{% endwith %}{% increment n %}{{ x | size }}{{ x | json }}",
+    "{{ l | json }}",
+    "{{ h | json }}",
 ]
 FLOW_T = [_parse(s) for s in FLOWS]
 CHILD = None
